@@ -184,10 +184,12 @@ class DiffEqSolver:
         # Initialise the memory used for the calculated result
         self._coeffs = np.empty([self._rspline.nbasis], np.complex128)
 
-        # Ensure dirichlet boundaries are not used at both boundaries on
-        # any mode
-        poorlyDefined = [b for b in lNeumannIdx if b in uNeumannIdx]
-        if (len(poorlyDefined) != 0 and self.funcIsNull(rFactor)):
+        # Ensure that no mode is left without any Dirichlet boundary
+        # condition when the equation does not fix its constant either
+        # (rFactor - m^2 ddThetaFactor vanishes)
+        poorlyDefined = [b for b in lNeumannIdx if b in uNeumannIdx
+                         and self.funcIsNull(lambda r: rFactor(r)-b*b*ddThetaFactor(r))]
+        if (len(poorlyDefined) != 0):
             raise ValueError(
                 "Modes {0} are poorly defined as they use 0 Dirichlet boundary conditions".format(poorlyDefined))
 
